@@ -248,11 +248,12 @@ def register(R):
                raises={}, loops={0: LoopSpec(invariant=lambda l: {}, iteration_checks=wrk_iteration)})
 
     # worker download loop: at most _MAX_ATTEMPTS requests, each writing from the job's offset
-    R.contract(f'{WRK}._write_to_file', params=dict(filename=Any, offset=Any, body=Any), raise_when={'Exception': lambda c: None, 'socket.timeout': lambda c: None})
+    R.contract(f'{WRK}._write_to_file', params=dict(filename=Any, offset=Any, body=Any), raise_when={'Exception': lambda c: None, 'socket.timeout': lambda c: None, 'OSError': lambda c: None})   # OSError: file-system fault of the temp file
 
     def dgo_iteration(l0, l1, evs):
         go = [e for e in evs if e.kind == 'ext' and e.name == 'client.get_object']
-        return {'one_get_object_per_attempt': B(len(go) == 1)}
+        # C03: only stream-level errors are retried (never a file-system OSError of the temp file)
+        return {'one_get_object_per_attempt': B(len(go) == 1), **R.retry_clauses(l1.engine, evs, ['C03', 'C19'])}
 
     cdg = R.contracts[f'{WRK}._do_get_object']
     cdg.props = ('C19', 'C03', 'C02')
